@@ -28,10 +28,12 @@ func init() {
 			"(R15) errors turned into success (A13) over the database layer: wherever an error is tested and the function can still return success the site is in a table with the exact tolerated condition (ErrNotFound for writes of new records, ErrNotFound/ErrPermissionDenied for Exists, fs.ErrNotExist / badger.ErrKeyNotFound for absent files and keys, the retried file write) - any other error class ending in success is reported; " +
 			"(R16) sibling agreement (A14): the paired functions consist of the same operations - calls with their constant arguments, comparisons (canonical under negation and operand order), field reads/writes, channel operations, returns, each with the number of conditions it depends on - once the instance-specific names are mapped onto each other; logging is ignored, named differences are listed in the table: Interface.Put ~ PutNew (PutNew adds the metadata reset), Controller.Maintain ~ MaintainThorough, and each accessor method of JSON-held-as-string ~ JSON-held-as-bytes (a query must match serialized data identically however it is held); " +
 			"(R17) the evict handler deletes a to-be-written record from the write cache before it writes it through (a copy left behind is rewritten by the next flush); " +
+			"(R18) shared rules: the writer/reader tables of the stored-record format incl. the 'no data only for deleted records' predicate of both Marshal implementations (= C08-R3), and the controller passes the caller's local/internal scopes to the storage in that order (= C03-R3); " +
 			"NOT decided: equivalence with a reference map over operation histories, operator semantics through the accessors, physical state after crashes.",
 		Rules: []ruleFn{c02R1, c02R2, c02R3, c02R4, c02R5, c02R6, c02R7, c02R8,
 			lockRuleFor("C02-R9", 9, []string{"database/storage/hashmap", "database/storage/bbolt", "database/storage/badger", "database/storage/fstree", "database/storage/sinkhole", "database/storage", "database/iterator"}, []string{}, map[string]string{}),
-			c02R10, c02R11, c02R12, c02R13, c02R14, c02R15, c02R17, func(c *Ctx, r *Report) { siblingRule(c, r, "C02-R16", append(append([]siblingPair{}, sibDatabase...), sibAccessor...)) }},
+			c02R10, c02R11, c02R12, c02R13, c02R14, c02R15, c02R17,
+			borrowRule(c08R3, "C08-R3", "C02-R18", 3, nil), borrowRule(c03R3, "C03-R3", "C02-R18", 4, func(s string) bool { return strings.Contains(s, "Controller") || strings.Contains(s, "Query") }), func(c *Ctx, r *Report) { siblingRule(c, r, "C02-R16", append(append([]siblingPair{}, sibDatabase...), sibAccessor...)) }},
 	})
 }
 
